@@ -47,6 +47,9 @@ const (
 var lossKinds = []string{"none", "none", "p10", "p30", "p60", "total", "dead:0", "dead:3", "dead:8", "dead:20", "oneway"}
 
 func gen(g *GenCtx) {
+	// hvlib's streams for neighbouring seeds are shifted copies of one another and re-synchronise;
+	// re-seed from the first draw so that different seeds give unrelated programs
+	g.R = NewRng(g.R.U64())
 	n := 132
 	if g.Thorough() {
 		n = 3000 / g.Parts
